@@ -70,6 +70,7 @@ func c03longProgram(cs c03long) [][]string {
 		{"RPUSH", "l", "a", "b"}, {"LRANGE", "l", "0", "-1"}, {"LRANGE", "missing", "0", "-1"}, {"SADD", "s", "m"}, {"SMEMBERS", "s"},
 		{"HGETALL", "h"}, {"HGET", "h", "f"}, {"MGET", "k", "missing", "empty"}, {"GET", "k"}, {"GETSET", "k", big("z")}, {"GET", "k"},
 		{"SETNX", "k", "no"}, {"GET", "k"}, {"MSET", "k", big("m"), "k2", big("n")}, {"MGET", "k2", "k"}, {"EXISTS", "k", "k2", "missing"},
+		{"HMSET", "h2", "f1", big("p"), "f2", big("q"), "f3", "small"}, {"HMGET", "h2", "f1", "f2", "f3"}, {"HGETALL", "h2"},
 		{"EVAL", "return {{},{{}},{}}", "1", "missing"}, {"DEL", "k", "k2", "l", "s", "h"}, {"HGETALL", "h"},
 	}
 	prog = append(prog, tail...)
